@@ -6,13 +6,15 @@ import os
 import vlib
 from framework import graph_replay
 
-RK = ["val", "exc", "drop", "mdes", "masg", "dtor", "final"]
-RCONST = {"val": "RVal", "exc": "RExc", "drop": "RDrop", "mdes": "RMdes", "masg": "RMasg", "dtor": "RDtor", "final": "RFinal"}
-WCONST = {"co": "WCo", "hv": "WHv", "bl": "WBl", "cb": "WCb"}
+RK = ["val", "exc", "drop", "mdes", "masg", "dtor", "final", "ovw"]
+RCONST = {"val": "RVal", "exc": "RExc", "drop": "RDrop", "mdes": "RMdes", "masg": "RMasg", "dtor": "RDtor", "final": "RFinal", "ovw": "ROvw"}
+# "mp": the callback of a callback-promise make_promise<T>(fn) -- the only observer of its (heap) future
+WCONST = {"co": "WCo", "hv": "WHv", "bl": "WBl", "cb": "WCb", "mp": "WMp"}
 ACTIONS = ["Claim", "SwapReady", "CheckReady", "SubCAS"]
 
 RPC = {"mclaim_own": "mclaim_own", "massign_own": "massign", "massign_null": "massign", "claim": "claim", "dtor": "dtor", "dload_own": "dload", "dload_null": "dload", "dload_p_own": "dload",
-       "dload_p_null": "dload", "swap": "swap", "flagstore": "flagstore", "notify": "notify", "done": "done"}
+       "dload_p_null": "dload", "swap": "swap", "flagstore": "flagstore", "notify": "notify", "done": "done",
+       "ovw": "ovw", "oclaim": "oclaim", "ostore": "ostore", "qclaim": "qclaim", "dload_q": "dload"}
 
 
 def chain_of(st):
@@ -26,7 +28,9 @@ def chain_of(st):
     return out
 
 
-def proj(st, rk, wk=None):
+def proj(st, rk, wk=None, trk=False):
+    """trk: the replayer is built over the tracked move-only payload (-DPAYLOAD_TRK) and also reports the state of every value
+    resolver's argument object (spec: arg), the payload instances the library constructed (spec: built) and holds (the stored value)"""
     owner = st["owner"]
     for r, k in rk.items():
         if k == "dtor" and st["rpc"][r] == "done":
@@ -36,7 +40,7 @@ def proj(st, rk, wk=None):
         pend[r] = RPC[pc]
     for w, pc in (st["wpc"] or {}).items():
         pend[w] = pc
-    return {
+    out = {
         "allocs": 0,
         "copies": 0,
         "chain": chain_of(st),
@@ -49,13 +53,22 @@ def proj(st, rk, wk=None):
         "tag": st["tag"],
         "payload": st["payload"],
     }
+    if trk:
+        out["arg"] = {r: st["arg"][r] for r, k in rk.items() if k in ("val", "ovw")}
+        # a payload instance is constructed only on the thread of the resolver whose value won (spec: built counts exactly that one)
+        out["made"] = {r: 1 if (st["tag"] == "val" and st["payload"] == r and st["built"] == 1) else 0
+                       for r, k in rk.items() if k in ("val", "ovw", "final")}
+        # the stored value; the heap future of a callback-promise is gone once its callback has run
+        gone = any(k == "mp" and st["wpc"][w] == "done" for w, k in (wk or {}).items())
+        out["live"] = 1 if st["tag"] == "val" and not gone else 0
+    return out
 
 
 def mix_constants(rmix, wmix, pre="none"):
     """rmix/wmix: lists of kinds -> (constants dict for the cfg, R map, W map)"""
     rk = {"r%d" % (i + 1): k for i, k in enumerate(rmix)}
     wk = {"w%d" % (i + 1): k for i, k in enumerate(wmix)}
-    consts = {"PreResolved": '"%s"' % {"exc_throw": "exc"}.get(pre, pre)}
+    consts = {"PreResolved": '"%s"' % {"exc_throw": "exc", "novalue": "drop"}.get(pre, pre)}
     for k, c in RCONST.items():
         consts[c] = "{" + ", ".join(r for r, kk in rk.items() if kk == k) + "}"
     for k, c in WCONST.items():
@@ -65,13 +78,13 @@ def mix_constants(rmix, wmix, pre="none"):
 
 def fix_empty(st):
     # TLC prints functions with empty domain as <<>>: normalise to {}
-    for k in ("rpc", "rres", "cur", "rest", "sp", "flag", "wpc", "seen", "resumes", "nxt"):
+    for k in ("rpc", "rres", "cur", "rest", "sp", "flag", "wpc", "seen", "resumes", "nxt", "arg"):
         if st.get(k) == []:
             st[k] = {}
     return st
 
 
-def run_mix(ctx, rp, rmix, wmix, tag, max_paths=None, extra_random=0, bind=False, pre="none"):
+def run_mix(ctx, rp, rmix, wmix, tag, max_paths=None, extra_random=0, bind=False, pre="none", trk=False):
     consts, rk, wk = mix_constants(rmix, wmix, pre)
 
     def hdr(k, st0):
@@ -83,9 +96,11 @@ def run_mix(ctx, rp, rmix, wmix, tag, max_paths=None, extra_random=0, bind=False
         return h
 
     def pj(st):
-        return proj(fix_empty(dict(st)), rk, wk)
+        return proj(fix_empty(dict(st)), rk, wk, trk)
     must = list(ACTIONS)
-    if not wmix:
+    if "ovw" in rmix:
+        must += ["OvwStart", "OClaim", "OStore", "QClaim"]
+    if not wmix or wmix == ["mp"]:
         must = [a for a in must if a not in ("CheckReady", "SubCAS")]
     if pre != "none":
         must = [a for a in must if a in ("CheckReady",)] if any(k != "cb" for k in wmix) else []
@@ -141,7 +156,22 @@ def build_ref(ctx):
                                 sanitize=not ctx.quick, extra_flags=["-DPAYLOAD_REF"])
 
 
-def run_mixes(ctx, rp, jobs, max_paths=None, par=6, tagp="m", bind=False, pre="none"):
+def build_trk(ctx, align=0):
+    """the same replayer over a move-only, instance-counted payload with a moved-from flag (the arguments of refused calls and the
+    number of live / constructed instances are observed); align=64: the same type OVER-ALIGNED (alignof > default new alignment)"""
+    return vlib.compile_harness(os.path.join(vlib.VERIF, "harness/future_replay.cpp"), "future_replay_trk%s" % (align or ""),
+                                sanitize=not ctx.quick, extra_flags=["-DPAYLOAD_TRK"] + (["-DPAYLOAD_ALIGN=%d" % align] if align else []))
+
+
+def build_all(ctx, names):
+    """compile several builds of the replayer side by side; names from int/big/ref/trk/trk64 -> {name: binary}"""
+    from concurrent.futures import ThreadPoolExecutor
+    fns = {"int": build, "big": build_big, "ref": build_ref, "trk": build_trk, "trk64": lambda c: build_trk(c, 64)}
+    with ThreadPoolExecutor(max_workers=len(names)) as ex:
+        return dict(zip(names, ex.map(lambda n: fns[n](ctx), names)))
+
+
+def run_mixes(ctx, rp, jobs, max_paths=None, par=6, tagp="m", bind=False, pre="none", trk=False):
     """jobs: list of (rmix, wmix); TLC + replay per mix, several mixes in parallel"""
     from concurrent.futures import ThreadPoolExecutor
     errs = []
@@ -151,7 +181,7 @@ def run_mixes(ctx, rp, jobs, max_paths=None, par=6, tagp="m", bind=False, pre="n
             return
         r, w = jobs[k]
         try:
-            run_mix(ctx, rp, r, w, "%s%d" % (tagp, k), max_paths=max_paths, bind=bind, pre=pre)
+            run_mix(ctx, rp, r, w, "%s%d" % (tagp, k), max_paths=max_paths, bind=bind, pre=pre, trk=trk)
         except Exception as e:   # re-raised in the main thread
             errs.append(e)
     with ThreadPoolExecutor(max_workers=par) as ex:
@@ -159,6 +189,27 @@ def run_mixes(ctx, rp, jobs, max_paths=None, par=6, tagp="m", bind=False, pre="n
     if errs:
         raise errs[0]
     ctx.extra["mixes"] = ["%s|%s" % ("+".join(r), "+".join(w)) for r, w in jobs]
+
+
+def run_jobs(ctx, jobs, par=6):
+    """jobs: dicts {rp, r, w, tag[, max_paths, bind, pre, trk]} -- mixes over DIFFERENT builds of the replayer in one pool"""
+    from concurrent.futures import ThreadPoolExecutor
+    errs = []
+
+    def one(j):
+        if len(ctx.violations) >= 3:
+            return
+        try:
+            run_mix(ctx, j["rp"], j["r"], j["w"], j["tag"], max_paths=j.get("max_paths"), bind=j.get("bind", False),
+                    pre=j.get("pre", "none"), trk=j.get("trk", False))
+        except Exception as e:   # re-raised in the main thread
+            errs.append(e)
+    with ThreadPoolExecutor(max_workers=par) as ex:
+        list(ex.map(one, jobs))
+    if errs:
+        raise errs[0]
+    ctx.extra.setdefault("more_mixes", []).extend("%s:%s|%s%s" % (j["tag"], "+".join(j["r"]), "+".join(j["w"]), ":bind" if j.get("bind") else "")
+                                                  for j in jobs)
 
 
 def explore_validate(ctx, rp, rmix, wmix, tag, runs):
